@@ -430,6 +430,28 @@ func (g *Gen) BootstrapWhale(e *eng.Engine, refresh func()) {
 	if bk != "" {
 		ex("take", &baskettypes.MsgTake{Owner: A[0], BasketDenom: bk, Amount: "1234567890123456789012345678901", RetireOnTake: false})
 	}
+	coin := func(d string, n int64) *sdk.Coin { c := sdk.NewInt64Coin(d, n); return &c }
+	// a holding of 35 significant digits (10^28 + 0.000005): selling 0.000006 of it leaves 34 digits in the
+	// tradable column; when the order expires (or is cancelled) the refund has to restore all 35 exactly
+	{
+		s := time.Date(2018, 3, 1, 0, 0, 0, 0, time.UTC)
+		en := time.Date(2019, 3, 1, 0, 0, 0, 0, time.UTC)
+		r := ex("batch-35-digits", &basetypes.MsgCreateBatch{Issuer: iss[0], ProjectId: p.Id, Metadata: "whale-35", StartDate: &s, EndDate: &en,
+			Issuance: []*basetypes.BatchIssuance{{Recipient: A[5], TradableAmount: "10000000000000000000000000000.000005"}, {Recipient: A[6], TradableAmount: "20000000000000000000000000000"}}})
+		if r != nil && r.OK {
+			d := r.Resps[0].(*basetypes.MsgCreateBatchResponse).BatchDenom
+			exp := e.App.Header.Time.Add(90 * time.Minute)
+			ex("sell-35-digits", &markettypes.MsgSell{Seller: A[5], Orders: []*markettypes.MsgSell_Order{
+				{BatchDenom: d, Quantity: "0.000006", AskPrice: coin("stake", 5), DisableAutoRetire: true, Expiration: &exp},
+				{BatchDenom: d, Quantity: "0.000001", AskPrice: coin("stake", 5), DisableAutoRetire: true}}})
+			rs := ex("sell-35-digits", &markettypes.MsgSell{Seller: A[6], Orders: []*markettypes.MsgSell_Order{{BatchDenom: d, Quantity: "20000000000000000000000000000", AskPrice: coin("stake", 1), DisableAutoRetire: true}}})
+			if rs != nil && rs.OK {
+				id := rs.Resps[0].(*markettypes.MsgSellResponse).SellOrderIds[0]
+				bid, mf := coin("stake", 1), coin("stake", 1000)
+				ex("buy-35-digits", &markettypes.MsgBuyDirect{Buyer: A[7], Orders: []*markettypes.MsgBuyDirect_Order{{SellOrderId: id, Quantity: "0.000006", BidPrice: bid, DisableAutoRetire: true, MaxFeeAmount: mf}}})
+			}
+		}
+	}
 	if len(denoms) > 0 {
 		ask := sdk.Coin{Denom: "uatom", Amount: sdk.NewIntFromBigInt(ref.Pow10(28)).AddRaw(7)}
 		r := ex("sell", &markettypes.MsgSell{Seller: A[3], Orders: []*markettypes.MsgSell_Order{{BatchDenom: denoms[0], Quantity: "1000000000000.000001", AskPrice: &ask, DisableAutoRetire: true}}})
